@@ -48,6 +48,10 @@ def load_contracts():
         except ModuleNotFoundError as e:
             if m.split('.')[-1] not in str(e):
                 raise
+    for k, c in REGISTRY.items():
+        # a contract whose postconditions speak about `result` needs a `returns` type, or its callers cannot use it
+        if c.returns is None and not c.inline and not c.extra.get('inline_at_calls') and any('result' in e for e in c.ensures):
+            raise RuntimeError('%s: ensures mention `result` but the contract declares no `returns` type' % k)
     _loaded = True
 
 
